@@ -7,6 +7,8 @@ corrupted blobs must be rejected with ValueError. 15% of the runs are full sessi
 from __future__ import annotations
 
 import hashlib
+
+from Crypto.PublicKey import RSA
 import struct
 
 from Crypto.Cipher import PKCS1_v1_5
@@ -167,7 +169,15 @@ def execute(plan: dict) -> Result:
                             f"decrypt_metadata(encrypt_metadata(m)) differs in {bad or ['size']}")
             # the same blob offered to the holder of ANOTHER private key (after it was decrypted with the right one)
             try:
-                decrypt_metadata(blob, rsa_key(plan["other"]))
+                # freshly imported key objects that are dropped again (as a loop over candidate key files does)
+                if ii % 4 == 0:
+                    k_right = RSA.import_key(rsa_key(plan["rsa"]).export_key())
+                    decrypt_metadata(blob, k_right)
+                    del k_right
+                    k_other = RSA.import_key(rsa_key(plan["other"]).export_key())
+                else:
+                    k_other = rsa_key(plan["other"])
+                decrypt_metadata(blob, k_other)
                 res.violate(("C06", "blob_accepted_by_other_private_key"),
                             "a blob that had just been decrypted with its own key was accepted by decrypt_metadata with another private key")
             except ValueError:
